@@ -21,6 +21,7 @@ CLAIMS = {
  'C12': dict(text='Ring.tla has a DropRing action (flush, cancel-all, drain) that may fire at any point of a history, after which operations and descriptors can still be dropped; TLC checks RingGoneClean; the replay drops the real Ring at that point, requires nothing to be left in flight, and after every behaviour drops the remaining handles and takes a census: allocator (nothing leaked), mmap/munmap balance with exact lengths, ring descriptor closed, descriptors open in the simulated kernel equal to the model.  Orders covered: operations / AsyncFds / ReadBufs before and after the Ring; pool and queue handle after the Ring.', ref='6 C12', technique='TLA+/TLC model checking + exhaustive transition replay with allocator/mmap/fd census'),
  'C14': dict(text='BufLaws.tla states the lawful pointer/length pairs, totals and set_init effect for read-only and writable buffers, arrays/tuples of 1-3 buffers and LimitedBuf with the limit as hi*2^32+lo; TLC checks PairsInside / TotalsAgree / InitExact / LimitRespected on the specification and enumerates every case (capacity and fill 0-2 (quick) or 0-3 (thorough), arity 1-3, every n, limits incl. >= 2^32); each is replayed against every public implementation (Vec, Box<[u8]>, String, Box<str>, Arc<[u8]>, Arc<str>, static slices, StaticBuf, both Cow variants, arrays, homogeneous and mixed tuples, LimitedBuf over each) comparing pointers with the allocation bounds the harness knows.  SkipBuf / ReadNBuf are crate-private and only exercised through C10; arities 4-8 and ReadBuf-as-BufMut are not covered here.', ref='6 C14', technique='TLA+/TLC exhaustive small-scope enumeration of buffer shapes + replay against all concrete buffer types', engine='buflaws'),
  'C15': dict(text='ReadBufEdit.tla gives the reference semantics (sequence operations under a fixed capacity; invalid ranges and over-capacity growth rejected without change; release returns the slot) and TLC enumerates, for every initial fill over a 2-letter alphabet, every sequence of two editing calls drawn from truncate / clear / remove with all nine range forms and all index pairs incl. out-of-bounds / set_len / extend_from_slice / spare_capacity_mut / a second read / release (307 000 behaviours at capacity 3); each is executed on a real ReadBuf filled by the simulated kernel in a 4-slot pool whose other slots hold canaries, comparing contents, length, rejection, the second read request (address = slot + len, length = spare capacity), the canaries and the buffer id that reaches the kernel on release/drop.', ref='6 C15', technique='TLA+/TLC exhaustive small-scope enumeration of edit sequences + replay on a real pool buffer with canaries', engine='readbuf'),
+ 'C16': dict(text='SockAddr.tla defines, byte for byte, the kernel representation and length of IPv4, IPv6, either-family and Unix (path, abstract, unnamed) addresses, which lengths may lawfully be passed, and what the kernel reports back (path names with the NUL counted, length sun_path+1 for a full path, length 0 for an unbound sender); TLC checks ExactStructure / FitsStorage and enumerates 1 000 addresses (octets {0,1,255}, ports {0,1,65535}, flow/scope {0,1,0x01020304}, names of length 0,1,2,3,15,106,107,108 with and without an interior NUL); each is pushed through into_storage/as_ptr and as_mut_ptr/init of the real implementations and compared.  Real-kernel corroboration: findings/F15_unix_address_read_back.rs.', ref='6 C16', technique='TLA+/TLC enumeration of addresses with a byte-level kernel representation + replay through the conversion functions', engine='sockaddr'),
  'C18': dict(text='Build.tla is the construction step machine (setup, four feature checks, three mappings, file-table registration) with every point at which the kernel can refuse; TLC enumerates the full cross product of 10 configuration settings x 10 failure points (36 480 attempts), checks AllOrNothing / ReleasedOnce / OutcomeByKernel / GrantedSizes and exports every attempt; each is executed as one Config::build on the simulated kernel with that failure injected, comparing the parameter block passed to io_uring_setup, the outcome, the mapping lengths, the number of submissions that fit, and a census of mappings, descriptors and allocations afterwards.', ref='6 C18', technique='TLA+/TLC exhaustive enumeration of configurations x fault points + replay of every case with fault injection', engine='build'),
  'C09': dict(text='Ring.tla models the restart branch (EINTR/ECANCELED on a live operation, incl. first completion of a two-step op and end of a multishot stream); TLC checks NeverSurfaces; the replay injects the errno sequences through the simulated kernel and compares the re-published entries and the value finally returned.', ref='6 C09', technique='TLA+/TLC model checking + exhaustive transition replay with errno injection'),
 }
@@ -47,7 +48,9 @@ m = {
            'enable': 'RUSTFLAGS=--cfg a10_verif, set in harness/.cargo/config.toml (the harness has a path dependency on /repo)',
            'baseline_off_cmd': 'cd /repo && cargo test --workspace --no-fail-fast --offline',
            'source_commits': hook_commits, 'add_only': True},
- 'engines': [{'name': 'buflaws', 'path': 'tools/engines.py:engine_buflaws', 'serves_properties': ['C14'],
+ 'engines': [{'name': 'sockaddr', 'path': 'tools/engines.py:engine_sockaddr', 'serves_properties': ['C16'],
+              'kind_free_text': 'TLC on spec/SockAddr.tla enumerates addresses; harness/src/bin/replay_sockaddr.rs runs the conversion functions'},
+             {'name': 'buflaws', 'path': 'tools/engines.py:engine_buflaws', 'serves_properties': ['C14'],
               'kind_free_text': 'TLC on spec/BufLaws.tla enumerates buffer shapes and limits; harness/src/bin/replay_buflaws.rs checks every concrete type'},
              {'name': 'readbuf', 'path': 'tools/engines.py:engine_readbuf', 'serves_properties': ['C15'],
               'kind_free_text': 'TLC on spec/ReadBufEdit.tla enumerates edit sequences; harness/src/bin/replay_readbuf.rs runs them on a real pool buffer'},
